@@ -56,6 +56,20 @@ impl PackageJsonParser {
         "overrides",
     ];
 
+    /// Specifier prefixes of dependencies that do not come from the registry
+    const NON_REGISTRY_PREFIXES: [&'static str; 10] = [
+        "catalog:",
+        "workspace:",
+        "file:",
+        "link:",
+        "git+",
+        "git:",
+        "git@",
+        "github:",
+        "http:",
+        "https:",
+    ];
+
     /// Parse npm alias format: npm:package@version or npm:@scope/package@version
     /// Returns (actual_package_name, version)
     fn parse_npm_alias(value: &str) -> Option<(String, String)> {
@@ -153,9 +167,14 @@ impl PackageJsonParser {
             let key_name = self.get_string_value(key_node, content);
             let raw_version = self.get_string_value(value_node, content);
 
-            // Skip pnpm catalog references (e.g., "catalog:ag-grid" or "catalog:")
-            // These are resolved from pnpm-workspace.yaml, not version-checked here
-            if raw_version.starts_with("catalog:") {
+            // Skip specifiers that do not name a registry version:
+            // - pnpm catalog references (e.g., "catalog:ag-grid" or "catalog:"), which are
+            //   resolved from pnpm-workspace.yaml, not version-checked here
+            // - workspace/file/link protocols, git and tarball URLs
+            if Self::NON_REGISTRY_PREFIXES
+                .iter()
+                .any(|prefix| raw_version.starts_with(prefix))
+            {
                 continue;
             }
 
